@@ -252,10 +252,10 @@ def gen_case(rng, idx, quick, kind=None):
     inter = [e in INTERSTITIALS for e in els]
     # ---- sublattices
     stub = kind == 'stub'
-    vasub = (not stub) and rng.random() < 0.15            # a vacancy on the substitutional sublattice
+    vasub = (not stub) and kind != 'exact' and rng.random() < 0.15            # a vacancy on the substitutional sublattice
     int_sl = {e: (1 if stub else int(rng.choice([1, 2]))) for e in ints}
     sls = sorted(set(int_sl.values()))
-    sl_va = {s: (True if stub else rng.random() < 0.8) for s in sls}
+    sl_va = {s: (True if stub else rng.random() < 0.9) for s in sls}   # without a vacancy the bordered matrix is structurally singular
     if not ints and rng.random() < (0.6 if stub else 0.5):
         sls, sl_va = [1], {1: True}                       # (subst)(VA), as FCC_A1 in the shipped databases
     variables = [(e, 0) for e in subs] + ([('VA', 0)] if vasub else [])
@@ -369,7 +369,8 @@ def gen_case(rng, idx, quick, kind=None):
                 if rng.random() < 0.15:
                     d2g = d2g + rng.normal(size=(nd, nd)) * sc * 0.05     # not symmetric: the code does not require it
                 dg = rng.normal(size=nd) * sc
-                dxdy = dxdy_y_full(rng, dxdy_y, nsv) if rng.random() < 0.6 else rng.normal(size=(n, nd))
+                lone = any(len(ids) == 1 and variables[ids[0]][0] != 'VA' for ids in groups.values())
+                dxdy = dxdy_y_full(rng, dxdy_y, nsv) if (rng.random() < 0.6 and not lone) else rng.normal(size=(n, nd))
                 moleA = moles.copy() if rng.random() < 0.6 else rng.uniform(0.05, 2, n)
                 mu = rng.normal(size=n) * sc
             if kind == 'singular':
@@ -489,24 +490,57 @@ def run_impl(c):
         D, _ = MB.interdiffusivity(mu, cs, ref, mob, corr_of(c), vacancy_poor_interstitial_sublattice=c['vp'])
         out['D'] = np.array(D)
         out['P_same'] = bool(np.array_equal(P2, out['P']))
-        # Thermodynamics wrappers (element re-ordering)
+        # databases with diffusivity instead of mobility parameters (same callables reused as diffusivities)
+        out['Dd'] = np.array(MB.interdiffusivity_from_diff(cs, ref, mob, corr_of(c) if c['corr'] is not None else {}))
+        out['trd'] = np.array(MB.tracer_diffusivity_from_diff(cs, mob, corr_of(c)))
+    except Exception as e:
+        out['err'] = err_enum(e) + ': ' + str(e)[:200]
+        return out
+    # documented default: diffusivity_correction = None means a factor of 1 for every element
+    out['default_err'] = None
+    if c['corr'] is None:
+        try:
+            Dd0 = np.array(MB.interdiffusivity_from_diff(cs, ref, mob))
+            if not np.array_equal(Dd0, out['Dd']):
+                out['default_err'] = 'value: default correction gives %r, explicit factor 1 gives %r' % (Dd0.tolist(), out['Dd'].tolist())
+        except Exception as e:
+            out['default_err'] = err_enum(e) + ': ' + str(e)[:200]
+    # Thermodynamics wrappers (element re-ordering); inverseMobility inverts the interdiffusivity, which is the zero
+    # matrix when the curvature is undefined (LinAlgError handled in totalddx): that case is outside the property
+    out['wrap_err'] = None
+    if c['inter'][c['ref']]:
+        # an interstitial reference element: the substitutional rows of the interdiffusivity sum to zero
+        # (C10_chemdiff_zero_sum), inverseMobility inverts a singular matrix; kawin's reference is the solvent
+        out['D_user'] = None
+        return out
+    try:
         th = FakeTherm(c)
         x = [0.1] * (len(els) - 1)
         out['D_user'] = np.atleast_2d(np.array(th.getInterdiffusivity(x if len(x) > 1 else x[0], c['T'])))
         out['tr_user'] = np.atleast_1d(np.array(th.getTracerDiffusivity(x if len(x) > 1 else x[0], c['T'])))
+        th.diffCallables['MATRIX'], th.mobCallables['MATRIX'] = th.mobCallables['MATRIX'], None
+        out['Dd_user'] = np.atleast_2d(np.array(th.getInterdiffusivity(x if len(x) > 1 else x[0], c['T'])))
+        out['trd_user'] = np.atleast_1d(np.array(th.getTracerDiffusivity(x if len(x) > 1 else x[0], c['T'])))
     except Exception as e:
-        out['err'] = err_enum(e) + ': ' + str(e)[:200]
+        out['wrap_err'] = err_enum(e) + ': ' + str(e)[:200]
+        # inverseMobility inverts the interdiffusivity: LinAlgError means that matrix is singular (undefined curvature,
+        # duplicated elements of the 'singular' kind): not a state the property speaks about, counted in the evidence
+        if err_enum(e) != 'LinAlgError':
+            out['err'] = out['wrap_err']
+        out['D_user'] = None
     return out
 
 
 def finite(im):
-    return all(np.all(np.isfinite(im[k])) for k in ('mm', 'tr', 'K', 'H', 'P', 'Dk', 'D', 'D_user', 'tr_user'))
+    return all(np.all(np.isfinite(im[k])) for k in ('mm', 'tr', 'K', 'H', 'P', 'Dk', 'D', 'Dd', 'trd') + (('D_user', 'tr_user', 'Dd_user', 'trd_user') if im['D_user'] is not None else ()))
 
 
 def elem_code(e):
-    """order-preserving integer code of an element name (<= 3 ASCII characters)"""
-    b = e.encode('ascii').ljust(3, b'\0')
-    return b[0] * 65536 + b[1] * 256 + b[2]
+    """order-preserving small integer code of an element name (1-2 capital letters)"""
+    b = e.encode('ascii')
+    if not (1 <= len(b) <= 2 and all(65 <= ch <= 90 for ch in b)):
+        raise ValueError('element name outside the coded range: %r' % e)
+    return (b[0] - 64) * 27 + ((b[1] - 64) if len(b) > 1 else 0)
 
 
 def model_terms(c, im):
@@ -529,15 +563,23 @@ def model_terms(c, im):
         rt, rt2, boollit(c['vp']), c['ref'], fvec(c['X']), boollist(c['inter']), fvec(corr_vec(c)), fvec(c['raw']),
         vars_, pd, fvec(c['dof'][nsv:]), impl)
     user_all = [els[c['ref']]] + list(c['user_solutes'])
-    t_ro = 'check_reorder %s %s %s %s %s %s' % (
-        natlist(elem_code(e) for e in c['user_solutes']), natlist(elem_code(e) for e in user_all),
-        fmat(im['D']), fvec(im['tr']), fmat(im['D_user']), fvec(im['tr_user']))
-    return [t_mob, t_fh, t_ro]
+    t_df = 'check_diff %s %d%%nat %s %s %s %s' % (rt, c['ref'], fvec(corr_vec(c)), fvec(c['raw']), fmat(im['Dd']), fvec(im['trd']))
+    if im['D_user'] is None:      # curvature undefined, wrappers raised: nothing to re-order
+        t_ro = '(true, true, @nil nat, @nil nat)'
+        t_ro2 = t_ro
+    else:
+        t_ro2 = 'check_reorder %s %s %s %s %s %s' % (
+            natlist(elem_code(e) for e in c['user_solutes']), natlist(elem_code(e) for e in user_all),
+            fmat(im['Dd']), fvec(im['trd']), fmat(im['Dd_user']), fvec(im['trd_user']))
+        t_ro = 'check_reorder %s %s %s %s %s %s' % (
+            natlist(elem_code(e) for e in c['user_solutes']), natlist(elem_code(e) for e in user_all),
+            fmat(im['D']), fvec(im['tr']), fmat(im['D_user']), fvec(im['tr_user']))
+    return [t_mob, t_fh, t_ro, t_df, t_ro2]
 
 
 def compare(c, im, vals):
     """-> list of (site, what) disagreements between model and implementation"""
-    (v_mm, v_tr, zs), (v_K, inv_ok, v_H, v_P, v_Dk, v_D, symH, symP), (ro_D, ro_tr, us, ua) = vals
+    (v_mm, v_tr, zs), (v_K, inv_ok, v_H, v_P, v_Dk, v_D, symH, symP), (ro_D, ro_tr, us, ua), (v_Dd, v_trd), (ro_Dd, ro_trd, _, _) = vals
     dis = []
 
     def rep(site, name, r, arr):
@@ -554,15 +596,24 @@ def compare(c, im, vals):
     singular = inv_ok is None
     if not singular and inv_ok[1] is not True:
         dis.append(('harness', 'exact elimination did not return a right inverse (harness error)'))
-    rep(SITE_H, 'dMudX', v_H, im['H'])
-    rep(SITE_H, 'partialdMudX', v_P, im['P'])
-    rep(SITE_M, 'chemical_diffusivity', v_Dk, im['Dk'])
-    rep(SITE_M, 'interdiffusivity', v_D, im['D'])
-    if not ro_D:
+    # an exactly singular bordered matrix: the model takes the LinAlgError branch (zeros).  LAPACK only raises when
+    # a pivot is exactly zero in binary64; otherwise it returns huge numbers: indeterminate, counted, not compared
+    garbage = singular and not (np.all(im['H'] == 0) and np.all(im['P'] == 0))
+    if not garbage:
+        rep(SITE_H, 'dMudX', v_H, im['H'])
+        rep(SITE_H, 'partialdMudX', v_P, im['P'])
+        rep(SITE_M, 'chemical_diffusivity', v_Dk, im['Dk'])
+        rep(SITE_M, 'interdiffusivity', v_D, im['D'])
+    rep(SITE_M, 'interdiffusivity_from_diff', v_Dd, im['Dd'])
+    if v_trd is not None:
+        dis.append((SITE_M, 'tracer_diffusivity_from_diff[%d]: model %r' % (v_trd[1][0], float(tofrac(v_trd[1][1])))))
+    if im['D_user'] is not None and not (ro_Dd and ro_trd):
+        dis.append((SITE_T, 'diffusivity-parameter path: re-ordered outputs differ from the model (unsort %r / %r)' % (us, ua)))
+    if not ro_D and im['D_user'] is not None:
         dis.append((SITE_T, 'getInterdiffusivity: re-ordered matrix differs from the model (unsort %r)' % (us,)))
     if not ro_tr:
         dis.append((SITE_T, 'getTracerDiffusivity: re-ordered vector differs from the model (unsort %r)' % (ua,)))
-    return dis, {'singular': singular, 'zero_sum_model': zs, 'symH_model': symH, 'symP_model': symP}
+    return dis, {'singular': singular, 'garbage': garbage, 'zero_sum_model': zs, 'symH_model': symH, 'symP_model': symP}
 
 
 # ------------------------------------------------------------------------------------------
@@ -576,13 +627,13 @@ def oracle(c, im):
     X = np.array(c['X'])
     M = np.array(corr_vec(c)) * np.array(c['raw'])
     subs = [a for a in range(n) if not inter[a]]
-    exact = c['kind'].startswith('exact')
+    exact = c['kind'].startswith('exact') and all(float(x * 16).is_integer() for x in X) and float(sum(X)) == 1.0
     mm = im['mm']
     # (1) tracer diffusivities positive and equal to R*T*M, labelled by element
     for a in range(n):
         want = RGAS * c['T'] * M[a]
         if not (abs(im['tr'][a] - want) <= 1e-12 * abs(want)):
-            v.append(('tracer_is_RTM', SITE_M, 'value', 'tracer diffusivity of %s is %r, R*T*M = %r' % (els[a], float(im['tr'][a]), want)))
+            v.append(('tracer_is_RTM', SITE_M, 'value', 'tracer diffusivity of %s is %r, R*T*M = %r' % (els[a], float(im['tr'][a]), float(want))))
             break
         if not im['tr'][a] > 0:
             v.append(('tracer_is_RTM', SITE_M, 'sign', 'tracer diffusivity of %s is %r with mobility %r' % (els[a], float(im['tr'][a]), M[a])))
@@ -606,13 +657,16 @@ def oracle(c, im):
                 v.append(('vff_zero_sum', SITE_M, 'interstitial row', 'interstitial %s: row %r' % (els[a], [float(x) for x in mm[a]])))
                 break
     # (3) chemical-potential derivatives: symmetric whenever the phase's own curvature is symmetric
+    #     (an interstitial sublattice without vacancies makes the bordered matrix structurally singular - more elements than
+    #      independent site fractions + phase amount; LAPACK then returns numbers of size 1/eps: no inverse, nothing to judge)
     d2 = np.array(c['d2g'])[len(c['svs']):, len(c['svs']):]
-    if np.array_equal(d2, d2.T):
+    wellposed = bool(np.linalg.cond(im['K']) < 1e10)
+    if np.array_equal(d2, d2.T) and wellposed:
         for name, A in (('dMudX', im['H']), ('partialdMudX', im['P'])):
             if np.max(np.abs(A - A.T)) > 1e-7 * max(np.max(np.abs(A)), 1e-300):
                 v.append(('dMudX_symmetric', SITE_H, name, '%s is not symmetric: %r' % (name, A.tolist())))
     st = c.get('stub')
-    if st:
+    if st and wellposed:
         Pfd = np.array(st['P_fd'])
         Hfd = total_from_partial(Pfd, r)
         sc = np.max(np.abs(Pfd))
@@ -637,15 +691,24 @@ def oracle(c, im):
             want = (X[r] * RT * M[a] + X[a] * RT * M[r]) * phi
             got = float(im['D'][0, 0])
             if abs(got - want) > 1e-6 * abs(want):
-                v.append(('binary_darken', SITE_M, 'value', 'binary interdiffusivity %r, Darken combination of tracer diffusivities and thermodynamic factor %r' % (got, want)))
+                v.append(('binary_darken', SITE_M, 'value', 'binary interdiffusivity %r, Darken combination of tracer diffusivities and thermodynamic factor %r' % (got, float(want))))
             if stable and not got > 0:
                 v.append(('eigenvalues_positive', SITE_M, 'binary', 'binary interdiffusivity %r is not positive in a stable state' % got))
+    # (3b) diffusivity-parameter databases: diagonal matrix of the solutes' own (corrected) diffusivities
+    nr = [i for i in range(n) if i != r]
+    want = np.diag([M[a] for a in nr])
+    if not np.allclose(im['Dd'], want, rtol=1e-14, atol=0) or not np.allclose(im['trd'], M, rtol=1e-14, atol=0):
+        v.append(('diffusivity_path', SITE_M, 'value', 'interdiffusivity_from_diff %r / tracer %r, diffusivities of the elements %r (reference %s)' % (im['Dd'].tolist(), im['trd'].tolist(), M.tolist(), els[r])))
+    if im.get('default_err'):
+        v.append(('no_internal_error', SITE_M, 'interdiffusivity_from_diff default correction', 'interdiffusivity_from_diff with the documented default diffusivity_correction=None: ' + im['default_err']))
     # (4) outputs of the Thermodynamics wrappers are labelled by the user's element order
+    if im['D_user'] is None:
+        return v
     user_all = [els[r]] + list(c['user_solutes'])
     for k, e in enumerate(user_all):
         want = RGAS * c['T'] * M[els.index(e)]
         if abs(im['tr_user'][k] - want) > 1e-12 * abs(want):
-            v.append(('reorder_labels', SITE_T, 'tracer', 'getTracerDiffusivity entry %d (element %s) is %r, R*T*M of that element is %r' % (k, e, float(im['tr_user'][k]), want)))
+            v.append(('reorder_labels', SITE_T, 'tracer', 'getTracerDiffusivity entry %d (element %s) is %r, R*T*M of that element is %r' % (k, e, float(im['tr_user'][k]), float(want))))
             break
     nr = [i for i in range(n) if i != r]
     for i, ei in enumerate(c['user_solutes']):
@@ -653,6 +716,10 @@ def oracle(c, im):
             want = im['D'][nr.index(els.index(ei)), nr.index(els.index(ej))]
             if im['D_user'][i, j] != want:
                 v.append(('reorder_labels', SITE_T, 'interdiffusivity', 'getInterdiffusivity entry (%s,%s) is %r, D_%s%s = %r' % (ei, ej, float(im['D_user'][i, j]), ei, ej, float(want))))
+                return v
+            wantd = M[els.index(ei)] if i == j else 0.0
+            if abs(im['Dd_user'][i, j] - wantd) > 1e-14 * abs(wantd):
+                v.append(('reorder_labels', SITE_T, 'interdiffusivity (diffusivity parameters)', 'getInterdiffusivity entry (%s,%s) is %r, diffusivity of %s is %r' % (ei, ej, float(im['Dd_user'][i, j]), ei, float(M[els.index(ei)]))))
                 return v
     return v
 
@@ -668,14 +735,16 @@ def explore(ctx, cases, label):
     terms = []
     for i in ok_idx:
         terms += model_terms(cases[i], impls[i])
-    vals = ctx.coq_eval('cases_' + label, HEADER, terms, shard=max(6, 3 * (-(-len(ok_idx) // 32))))
+    vals = ctx.coq_eval('cases_' + label, HEADER, terms, shard=max(10, 5 * (-(-len(ok_idx) // 32))))
     dis_all, hits = [], []
     stats = ctx.notes.setdefault('model_side', {'singular': 0, 'zero_sum_exact': 0, 'dMudX_symmetric_exact': 0, 'right_inverse_checked': 0})
     for k, i in enumerate(ok_idx):
-        dis, info = compare(cases[i], impls[i], vals[3 * k:3 * k + 3])
+        dis, info = compare(cases[i], impls[i], vals[5 * k:5 * k + 5])
         for (site, d) in dis:
             dis_all.append((cases[i], site, d))
         stats['singular'] += int(info['singular'])
+        if info['garbage']:
+            ctx.notes['indeterminate_singular_in_binary64'] = ctx.notes.get('indeterminate_singular_in_binary64', 0) + 1
         stats['right_inverse_checked'] += int(not info['singular'])
         stats['zero_sum_exact'] += int(bool(info['zero_sum_model']))
         d2 = np.array(cases[i]['d2g'])[len(cases[i]['svs']):, len(cases[i]['svs']):]
@@ -693,6 +762,8 @@ def explore(ctx, cases, label):
         ctx.hist('vacancy_poor', c['vp'])
         if i not in ok_idx:
             dis_all.append((c, SITE_M, 'implementation raised ' + im['err'] if im['err'] else 'implementation returned a non-finite value'))
+        if im.get('wrap_err') and not im['err']:
+            ctx.notes['wrapper_singular_interdiffusivity'] = ctx.notes.get('wrapper_singular_interdiffusivity', 0) + 1
         for (clause, site, cls, msg) in oracle(c, im):
             hits.append((c, im, clause, site, cls, msg))
         if i < 3:
@@ -758,15 +829,20 @@ def database_sampling(ctx, quick):
                 mu, cs = mu_at(x)
                 H = dMudX(mu, cs, els[0])
                 P = partialdMudX(mu, cs)
-                mm = MB.mobility_matrix(cs, th.mobCallables[ph], dict(th.mobility_correction))
-                Malpha = MB.mobility_from_composition_set(cs, th.mobCallables[ph], dict(th.mobility_correction))
+                has_mob = th.mobCallables[ph] is not None
+                if has_mob:
+                    mm = MB.mobility_matrix(cs, th.mobCallables[ph], dict(th.mobility_correction))
+                    Malpha = MB.mobility_from_composition_set(cs, th.mobCallables[ph], dict(th.mobility_correction))
+                else:       # the database carries diffusivity parameters (Al-Zr): D = diag of the solutes' diffusivities
+                    mm = None
+                    Dalpha = MB.tracer_diffusivity_from_diff(cs, th.diffCallables[ph], dict(th.mobility_correction))
                 Xa = np.array(cs.X, float)
                 D = np.atleast_2d(th.getInterdiffusivity(x if nsol > 1 else x[0], T))
                 tr = np.atleast_1d(th.getTracerDiffusivity(x if nsol > 1 else x[0], T))
                 # numerical derivative of the equilibrium chemical potentials (user order of x)
                 Hfd = np.zeros((nsol, nsol))
                 for j in range(nsol):
-                    h = 1e-5 * max(x[j], 1e-3)
+                    h = 1e-3 * x[j]
                     xp = list(x); xp[j] += h
                     xm = list(x); xm[j] -= h
                     d = (mu_at(xp)[0] - mu_at(xm)[0]) / (2 * h)
@@ -774,6 +850,8 @@ def database_sampling(ctx, quick):
                         Hfd[i, j] = d[alpha.index(els[1 + i])] - d[r]
             except Exception as e:
                 st['skipped_not_converged'] += 1
+                if len(st.setdefault('skip_reasons', [])) < 3:
+                    st['skip_reasons'].append(err_enum(e) + ': ' + str(e)[:160])
                 continue
             st['points'] += 1
             ctx.count({'db': name, 'x': x, 'T': T}, True)
@@ -784,7 +862,7 @@ def database_sampling(ctx, quick):
             sc = np.max(np.abs(Hfd))
             err = float(np.max(np.abs(Hu - Hfd)) / sc)
             st['max_rel_fd_error'] = max(st['max_rel_fd_error'], err)
-            if err > 2e-4:
+            if err > 5e-4:
                 ctx.violation('matches_finite_difference', {'site': SITE_H, 'cls': 'database ' + name},
                               {'kind': 'input', 'database_point': pt, 'observed': {'dMudX_user_order': Hu.tolist(), 'finite_difference': Hfd.tolist()}},
                               '%s at x=%r T=%r: dMudX %r differs from the numerical derivative of the equilibrium chemical potentials %r' % (name, x, T, Hu.tolist(), Hfd.tolist()))
@@ -806,28 +884,36 @@ def database_sampling(ctx, quick):
                 if not (np.all(np.abs(evD.imag) <= 1e-9 * np.abs(evD.real)) and np.all(evD.real > 0)):
                     ctx.violation('eigenvalues_positive', {'site': SITE_M, 'cls': 'database ' + name}, {'kind': 'input', 'database_point': pt, 'observed': [str(z) for z in evD]},
                                   '%s at x=%r T=%r: interdiffusivity eigenvalues %r' % (name, x, T, evD.tolist()))
-            # tracer = R T M > 0, labelled by the user's element order
-            for i, e in enumerate(els):
-                want = RGAS * T * Malpha[alpha.index(e)]
-                if not (tr[i] > 0 and abs(tr[i] - want) <= 1e-10 * want):
-                    ctx.violation('tracer_is_RTM', {'site': SITE_T, 'cls': 'database ' + name}, {'kind': 'input', 'database_point': pt, 'observed': tr.tolist()},
-                                  '%s at x=%r T=%r: tracer diffusivity of %s is %r, R*T*M = %r' % (name, x, T, e, float(tr[i]), float(want)))
-                    break
-            # zero flux sum in the volume-fixed frame
-            col = np.sum(mm, axis=0)
-            if np.max(np.abs(col)) > 1e-9 * np.max(np.abs(mm)):
-                ctx.violation('vff_zero_sum', {'site': SITE_M, 'cls': 'database ' + name}, {'kind': 'input', 'database_point': pt, 'observed': mm.tolist()},
-                              '%s at x=%r T=%r: columns of the mobility matrix sum to %r' % (name, x, T, col.tolist()))
-            # binary: Darken combination with the numerically differentiated thermodynamic factor
-            if nsol == 1:
-                a = alpha.index(els[1])
-                xa, xr = Xa[a], Xa[r]
-                # d mu_a / d x_a along the line = Hfd * x_r (Gibbs-Duhem), so Phi = x_a x_r / (R T) * Hfd
-                phi = xa * xr / (RGAS * T) * Hfd[0, 0]
-                want = (xr * tr[1] + xa * tr[0]) * phi
-                if abs(D[0, 0] - want) > 5e-4 * abs(want):
-                    ctx.violation('binary_darken', {'site': SITE_M, 'cls': 'database ' + name}, {'kind': 'input', 'database_point': pt, 'observed': float(D[0, 0]), 'expected': float(want)},
-                                  '%s at x=%r T=%r: interdiffusivity %r, Darken %r' % (name, x, T, float(D[0, 0]), float(want)))
+            st['parameters'] = 'mobility' if has_mob else 'diffusivity'
+            if has_mob:
+                # tracer = R T M > 0, labelled by the user's element order
+                for i, e in enumerate(els):
+                    want = RGAS * T * Malpha[alpha.index(e)]
+                    if not (tr[i] > 0 and abs(tr[i] - want) <= 1e-10 * want):
+                        ctx.violation('tracer_is_RTM', {'site': SITE_T, 'cls': 'database ' + name}, {'kind': 'input', 'database_point': pt, 'observed': tr.tolist()},
+                                      '%s at x=%r T=%r: tracer diffusivity of %s is %r, R*T*M = %r' % (name, x, T, e, float(tr[i]), float(want)))
+                        break
+                # zero flux sum in the volume-fixed frame
+                col = np.sum(mm, axis=0)
+                if np.max(np.abs(col)) > 1e-9 * np.max(np.abs(mm)):
+                    ctx.violation('vff_zero_sum', {'site': SITE_M, 'cls': 'database ' + name}, {'kind': 'input', 'database_point': pt, 'observed': mm.tolist()},
+                                  '%s at x=%r T=%r: columns of the mobility matrix sum to %r' % (name, x, T, col.tolist()))
+                # binary: Darken combination with the numerically differentiated thermodynamic factor
+                if nsol == 1:
+                    a = alpha.index(els[1])
+                    xa, xr = Xa[a], Xa[r]
+                    # d mu_a / d x_a along the line = Hfd * x_r (Gibbs-Duhem), so Phi = x_a x_r / (R T) * Hfd
+                    phi = xa * xr / (RGAS * T) * Hfd[0, 0]
+                    want = (xr * tr[1] + xa * tr[0]) * phi
+                    if abs(D[0, 0] - want) > 1e-3 * abs(want):
+                        ctx.violation('binary_darken', {'site': SITE_M, 'cls': 'database ' + name}, {'kind': 'input', 'database_point': pt, 'observed': float(D[0, 0]), 'expected': float(want)},
+                                      '%s at x=%r T=%r: interdiffusivity %r, Darken %r' % (name, x, T, float(D[0, 0]), float(want)))
+            else:
+                want = np.diag([Dalpha[alpha.index(e)] for e in els[1:]])
+                wtr = np.array([Dalpha[alpha.index(e)] for e in els])
+                if not (np.allclose(D, want, rtol=1e-12, atol=0) and np.allclose(tr, wtr, rtol=1e-12, atol=0) and np.all(np.diag(D) > 0)):
+                    ctx.violation('diffusivity_path', {'site': SITE_T, 'cls': 'database ' + name}, {'kind': 'input', 'database_point': pt, 'observed': D.tolist()},
+                                  '%s at x=%r T=%r: interdiffusivity %r, diffusivities of the solutes %r' % (name, x, T, D.tolist(), want.tolist()))
             if k == 0:
                 ctx.sample({'database': name, 'x': x, 'T': T, 'dMudX_user_order': Hu.tolist(), 'finite_difference': Hfd.tolist(),
                             'interdiffusivity': D.tolist(), 'eigenvalues': [float(z.real) for z in evD]}, limit=12)
@@ -846,19 +932,31 @@ def run(ctx):
     cases = corpus_cases() + [gen_case(ctx.rng, i, quick) for i in range(ncases)]
     dis, hits = explore(ctx, cases, 'main')
     report_hits(ctx, hits)
-    if dis and not hits:
-        more = [gen_case(ctx.rng, i, quick) for i in range(600)]
+    hit_sites = set(h[3] for h in hits)
+    unexplained = [d for d in dis if d[1] not in hit_sites]
+    if unexplained:
+        # the implementation no longer behaves like the model the theorems are about: search harder with the
+        # independent oracle; what it cannot explain is reported as a broken correspondence with its input
+        more = [gen_case(ctx.rng, i, quick) for i in range(400)]
         impls = [run_impl(c) for c in more]
         hits2 = [(c, im, *h) for c, im in zip(more, impls) for h in oracle(c, im)]
         ctx.cov['evaluations'] += len(more)
-        if hits2:
-            report_hits(ctx, hits2)
-        else:
-            c, site, d = dis[0]
-            ctx.violation('correspondence', {'site': site, 'cls': d.split('[')[0].split(':')[0]},
-                          {'broken': {'correspondence': 'coq/C10/Model.v vs kawin/thermo/{Mobility,FreeEnergyHessian,Thermodynamics}.py', 'first_disagreement': d},
-                           'input': hexcase(c), 'disagreements': len(dis)},
-                          'model and implementation disagree (%d cases), e.g. %s' % (len(dis), d), no_input=True)
+        report_hits(ctx, hits2)
+        hit_sites |= set(h[3] for h in hits2)
+    if dis:
+        seen = set()
+        unexplained = dis
+        for (c, site, d) in dis:
+            cls = d.split('[')[0].split(':')[0]
+            if (site, cls) in seen:
+                continue
+            seen.add((site, cls))
+            n_same = sum(1 for x in unexplained if x[1] == site and x[2].split('[')[0].split(':')[0] == cls)
+            ctx.violation('correspondence', {'site': site, 'cls': cls},
+                          {'kind': 'input', 'broken': {'correspondence': 'coq/C10/Model.v vs kawin/thermo/{Mobility,FreeEnergyHessian,Thermodynamics}.py', 'first_disagreement': d},
+                           'input': hexcase(c), 'disagreements': n_same,
+                           'oracle': 'the exact-rational model of coq/C10/Model.v (the object of the theorems), evaluated inside Coq on this input'},
+                          'model and implementation disagree (%d cases), e.g. %s' % (n_same, d))
     ctx.notes['disagreements'] = len(dis)
     ctx.notes['oracle_hits'] = len(hits)
     database_sampling(ctx, quick)
